@@ -119,7 +119,10 @@ def fmodSmall (x y : α) : α := if x < 0 then x else if x < y then x else x - y
 
 /-- curve resistance coefficient of one heading segment (the three-coefficient formula) -/
 def curveCoeff (g : GeoConsts α) (par : TrainPar α) (dh len : α) : α :=
-  let curvature := absv (-g.rev / g.two + fmodSmall (dh + g.rev / g.two) g.rev) / len
+  let m := fmodSmall (dh + g.rev / g.two) g.rev
+  -- `%` keeps the sign of the dividend: the remainder is brought into [0, REV)
+  let m := if m < 0 then m + g.rev else m
+  let curvature := absv (-g.rev / g.two + m) / len
   let oneDegree := g.deg / g.ft100
   (if curvature < oneDegree then par.c0 * curvature
    else par.c0 * oneDegree + par.c1 * (curvature - oneDegree)
